@@ -3,6 +3,7 @@ package headers
 import (
 	"errors"
 	"fmt"
+	"math"
 	"strconv"
 	"strings"
 )
@@ -44,7 +45,12 @@ func parseRangeNumber(numStr string) (num int64, endIndex int64, ok bool) {
 			return num, index, true
 		}
 
-		num = num*10 + int64(ch-'0')
+		digit := int64(ch - '0')
+		if num > (math.MaxInt64-digit)/10 {
+			// The number does not fit in an int64; treat it as unparseable instead of wrapping around.
+			return 0, 0, false
+		}
+		num = num*10 + digit
 		index++
 	}
 
@@ -71,6 +77,10 @@ func parseRangeHeader(rangeStr string) (rangeHeader, error) {
 		return rangeHeader{}, ErrInvalidRangeUnit
 	}
 
+	if valuesStr == "" {
+		return rangeHeader{}, ErrInvalidRangeFormat
+	}
+
 	firstCh := valuesStr[0]
 	if firstCh == '-' {
 		// Suffix range: last N bytes
@@ -94,6 +104,11 @@ func parseRangeHeader(rangeStr string) (rangeHeader, error) {
 	start, startTail, ok := parseRangeNumber(valuesStr)
 	if !ok {
 		return rangeHeader{}, ErrInvalidRangeValue
+	}
+
+	if startTail >= int64(len(valuesStr)) {
+		// A number without the '-' separator, e.g. "bytes=5"
+		return rangeHeader{}, ErrInvalidRangeFormat
 	}
 
 	middleCh := valuesStr[startTail]
